@@ -109,6 +109,8 @@ package hamt
 
 //@ func (*hamt._UnixFSHAMTShard).hasChild
 //@ requires 0 <= childIndex && childIndex < shardFanout(n)
+//@ prop C02 C05 C15
+//@ ensures occupancy-is-the-bitfields-bit-and-nothing-else: result == bfBit(n.bitfield, childIndex)
 //@ assigns nothing
 
 //@ func (*hamt._UnixFSHAMTShard).getChildLink
